@@ -35,6 +35,30 @@ ordinary use hardly reaches — pick the change so that it manifests ONLY there:
    mutable class attributes, dict ordering, `int.from_bytes` defaults, `round`, `%` of negatives.
 Name the two changes G and H (directories G/ and H/, "change": "G" / "H" in meta.json).
 """,
+ "IJ": """
+ADDITIONAL GUIDANCE FOR THIS ROUND (fifth round). Four earlier rounds (160 changes) already produced: wrong masks/shifts,
+dropped or moved resets, off-by-one bounds, `<` vs `<=`, equality lists missing a field, float truncation, stale caches,
+signed/unsigned codes, byte order, pad rules, checksum folding, consistently changed encoder+decoder, shared default
+arguments, class attributes, error paths, rarely used variants/options, numeric corners, `or`-defaults swallowing 0,
+`+=` on bytearray, truthiness, module attribute rebinding. Do NOT repeat those. Aim this round at:
+ * CHANGE I — a "performance improvement" or "clean-up" that is correct for almost everything: a memo / cache keyed on
+   too few of the things the result depends on; a pre-computed table with one wrong or missing entry; a fast path
+   for the common case whose guard is slightly too wide; replacing a loop by slicing / `bytes.join` /
+   `int.from_bytes` / `struct.iter_unpack` / a precompiled `struct.Struct` that differs for one shape of input;
+   replacing `len(x) == 0` by `not x` or the reverse where the two differ; returning an internal buffer instead
+   of a copy; moving work from `pack` to a setter or to `__init__` (or back) so that ONE order of assignments
+   misses it; generator / iterator objects consumed twice.
+ * CHANGE J — a DATA-DEPENDENT slip: behaviour that differs only when the *content* (not the length) of a payload
+   or field has a particular form — payload that contains the sync word / start code / magic number / 0xFF / 0x00
+   runs / a byte that looks like a header of the same format; a field equal to a sentinel the code uses
+   internally (-1, None, 0xFFFF, 0x7FF); two elements of a list that are equal or out of order; a value that is
+   equal to a default; a count that equals another field by coincidence; a string/bytes confusion that only
+   bites for bytes >= 0x80; container classes (packet-in-packet: NPD in NPD, PES in TS, IP in Ethernet in pcap,
+   Chapter 11 payload classes in a Chapter 11 packet in a Chapter 10 file) where the INNER object influences the
+   OUTER codec wrongly only for particular inner content.
+Both must still need something specific to manifest, be realistic, and keep the 156 tests passing.
+Name the two changes I and J (directories I/ and J/, "change": "I" / "J" in meta.json).
+""",
 }
 def main():
     pair, outdir = sys.argv[1], sys.argv[2]
